@@ -129,7 +129,7 @@ def discharge(ob, base_axioms, timeout_s=20, seed=0, both=False, keep_model=True
                 cand = model_summary(s1.model())
             except Exception:
                 cand = None
-        s2 = _solver(base_axioms, ob, min(timeout_s, 8) if saturated else timeout_s, seed, mbqi=True)
+        s2 = _solver(base_axioms, ob, min(timeout_s / 4, 8) if saturated else timeout_s, seed, mbqi=True)
         r2 = s2.check()
         if r2 == z3.unsat:
             status, backend = 'discharged', 'z3(mbqi)'
@@ -142,7 +142,7 @@ def discharge(ob, base_axioms, timeout_s=20, seed=0, both=False, keep_model=True
             reason += ' | mbqi: ' + s2.reason_unknown()
             cv, why = 'unknown', 'not run'
             try:
-                cv, why = run_cvc5(s2.to_smt2(), min(timeout_s, 8) if saturated else timeout_s)
+                cv, why = run_cvc5(s2.to_smt2(), min(timeout_s / 4, 8) if saturated else timeout_s)
             except Exception as e:  # pragma: no cover
                 why = str(e)
             if cv == 'unsat':
